@@ -123,7 +123,7 @@ class Flow:
         return any(r[0] == "call" and re.search(pat, r[1]) for r in self.roots(start, stop_named=False))
 
     # ---- forward tracking of a call result to the switch that inspects it -----------------------
-    def result_edges(self, call, extra_pass=None):
+    def result_edges(self, call, extra_pass=None, nested=False):
         """Follow the value returned by `call` through pass-through adaptors and moves to every
         switch on its discriminant.  Returns dict(good=set((b,s)), bad=set((b,s)), switches=[b])."""
         fn = self.fn
@@ -170,7 +170,7 @@ class Flow:
                     else:
                         bad.add((bi, t[3]))
                 continue
-            if sv["place"][0] in tainted and all(x == "*" for x in sv["place"][1:]):
+            if sv["place"][0] in tainted and (nested or all(x == "*" for x in sv["place"][1:])):
                 sw.append(bi)
                 for tgt, names in sv["edges"].items():
                     if any(n in GOOD_VARIANTS for n in names) and not any(n in BAD_VARIANTS for n in names):
